@@ -157,6 +157,26 @@ func enumSpaces(c *harness.Ctx, forGrammar bool) []textSpace {
 		}
 	}
 	sp = append(sp, textSpace{"corpus-derived", len(derived), func(i int) string { return derived[i] }})
+	// comment space: two declarations with comment skeletons between and after them
+	cAlpha := []string{"/*", "*/", "*", "/", "x", "//", "\n"}
+	var between, after []string
+	for n := 0; n <= 3; n++ {
+		for i := 0; i < pow(len(cAlpha), n); i++ {
+			between = append(between, nth(cAlpha, n, i, " "))
+		}
+	}
+	for n := 0; n <= 2; n++ {
+		for i := 0; i < pow(len(cAlpha), n); i++ {
+			after = append(after, nth(cAlpha, n, i, " "))
+		}
+	}
+	bases := [][2]string{{"type A = 1", "type B = 1"}, {"prc[a] : 1 = close self", "prc[b] : 1 = wait a; close self"}}
+	nb, na := len(between), len(after)
+	sp = append(sp, textSpace{"comments", len(bases) * nb * na, func(i int) string {
+		b := bases[i%len(bases)]
+		i /= len(bases)
+		return b[0] + " " + between[i%nb] + " " + b[1] + " " + after[i/nb]
+	}})
 	return sp
 }
 
@@ -239,7 +259,7 @@ func quote(s string) string { return fmt.Sprintf("%q", s) }
 var illegalInsert = []string{"@", "#", "$", "~", "?", "é", "\x00", "`", "\""}
 
 func init() {
-	textRule := "all character strings of length <= 3 (quick) / <= 4 (thorough) over 31 scanner character-class representatives (letters, digits, _, ', space, newline, every punctuation the scanner knows, /, \\, an illegal ASCII character, a non-ASCII rune, the byte 0), all strings of length 4 / 5 over a 16-character sub-alphabet that exercises the multi-character tokens and comments, all token strings of length <= 3 / <= 4 over 57 lexemes (one per terminal, synonyms included), and for every corpus/example file every prefix, every single-character deletion and every insertion of 16 legal/illegal fragments at every token boundary"
+	textRule := "all character strings of length <= 3 (quick) / <= 4 (thorough) over 31 scanner character-class representatives (letters, digits, _, ', space, newline, every punctuation the scanner knows, /, \\, an illegal ASCII character, a non-ASCII rune, the byte 0), all strings of length 4 / 5 over a 16-character sub-alphabet that exercises the multi-character tokens and comments, all token strings of length <= 3 / <= 4 over 57 lexemes (one per terminal, synonyms included), for every corpus/example file every prefix, every single-character deletion and every insertion of 16 legal/illegal fragments at every token boundary, and two-declaration programs with every comment skeleton of <= 3 pieces over {/*, */, *, /, x, //, newline} between the declarations and of <= 2 pieces after them"
 	harness.Register(&harness.Check{
 		ID: "C11", Level: "exploration",
 		Rule:        textRule + "; each text is parsed by the real (fuel-instrumented) parser under the scheduler: it must return (not panic, not block on the error channel), within a fuel bound linear in len(text), with a program or a non-empty error; distinct_nontrivial = distinct texts with at least 2 characters",
